@@ -25,11 +25,16 @@ MAX_CALLS = 5000
 def build_case(rng, spec, tier):
     prof = spec["profile"]
     tp = spec[tier]
-    kind = rng.choices(["random", "shape", "chain"], [tp.get("w_random", 1), tp.get("w_shape", 0), tp.get("w_chain", 0.25)])[0]
+    kind = rng.choices(["random", "shape", "chain", "many", "wide"],
+                       [tp.get("w_random", 1), tp.get("w_shape", 0), tp.get("w_chain", 0.25), tp.get("w_many", 0.15), tp.get("w_wide", 0.04)])[0]
     if kind == "shape":
         return shape_case(rng, spec, tier)
     if kind == "chain":
         return chain_case(rng)
+    if kind == "many":
+        return manyprefix_case(rng)
+    if kind == "wide":
+        return wideids_case(rng)
     enc = "utf-8"
     pool, text = make_pool(rng, n=rng.choice(prof.get("pool", (16, 30))), classes=prof.get("classes", ("real",)), encoding=enc,
                            long_ok=prof.get("long", False))
@@ -86,6 +91,51 @@ def chain_case(rng):
     cfg = {"backend": rng.choice(["file", "memory"]), "default": "domain", "encoding": "utf-8", "overwrite": False, "rules": []}
     return {"engine": "paging", "kind": "chain", "cfg": cfg, "ops": ops, "aseed": rng.getrandbits(32), "inserts": rng.random() < 0.3,
             "max_we": 2, "chain": [mode, n]}
+
+
+def manyprefix_case(rng):
+    """One webentity with many prefixes (11 .. 70: prefix indexes of two decimal digits, beyond one
+    base-64 digit), 0-3 pages below each, some prefixes being pages themselves, links between them."""
+    head = b"s:http|h:com|h:many|"
+    P = rng.choice([11, 12, 16, 40, 65, 70])
+    prefixes = [head + b"p:%02d|" % i for i in range(P)]
+    ops = [{"op": "create", "prefixes": list(prefixes)}]
+    pages = []
+    for pre in prefixes:
+        if rng.random() < 0.3:
+            pages.append(pre)
+        for j in range(rng.choice([0, 1, 1, 2, 3])):
+            pages.append(pre + b"p:%c|" % (97 + j))
+    rng.shuffle(pages)
+    ops += [{"op": "add_pages", "lrus": pages[i:i + 25], "crawled": bool((i // 25) % 2), "as_str": False} for i in range(0, len(pages), 25)]
+    ops.append({"op": "add_links", "links": [[rng.choice(pages), rng.choice(pages)] for _ in range(len(pages))], "as_str": False})
+    cfg = {"backend": rng.choice(["file", "memory"]), "default": "domain", "encoding": "utf-8", "overwrite": False, "rules": []}
+    return {"engine": "paging", "kind": "many", "cfg": cfg, "ops": ops, "aseed": rng.getrandbits(32), "inserts": rng.random() < 0.3,
+            "max_we": 1, "high_ids": False, "first_we": head + b"p:00|", "many": P}
+
+
+def wideids_case(rng):
+    """Webentity ids well past 256 (CPython's small-integer cache, one byte): the webentities with the
+    highest ids are the ones paged through."""
+    from .history import wide_case
+
+    c = wide_case(rng, rng.choice([262, 300]))
+    c.update({"engine": "paging", "kind": "wide", "inserts": False, "max_we": 5, "high_ids": True})
+    return c
+
+
+def pick_webentities(sut, rng, case, default_max):
+    byw = sut.m.webentities()
+    gids = sorted(byw)
+    rng.shuffle(gids)
+    n = case.get("max_we", default_max)
+    if case.get("high_ids"):
+        top = sorted(gids, key=lambda g: -sut.idmap.get(g, 0))[: max(1, n - 1)]
+        gids = top + [g for g in gids if g not in top]
+    if case.get("first_we") is not None and case["first_we"] in sut.m.we:
+        g0 = sut.m.we[case["first_we"]]
+        gids = [g0] + [g for g in gids if g != g0]
+    return byw, gids[:n]
 
 
 # --------------------------------------------------------------------------
@@ -172,10 +222,8 @@ def page_through(sut, w, ps, k, crawled_only, rng, stats, inserts, gid, ever=Non
 def audit_C09(sut, rng, stats, case):
     out = []
     m = sut.m
-    byw = m.webentities()
-    gids = sorted(byw)
-    rng.shuffle(gids)
-    for gid in gids[: case.get("max_we", 6)]:
+    byw, gids = pick_webentities(sut, rng, case, 6)
+    for gid in gids:
         owner = m.page_owner()
         ps = list(byw[gid])
         rng.shuffle(ps)
@@ -239,11 +287,9 @@ def audit_C10(sut, rng, stats, case):
     out = []
     m = sut.m
     t = sut.t
-    byw = m.webentities()
     owner = m.page_owner()
-    gids = sorted(byw)
-    rng.shuffle(gids)
-    for gid in gids[: case.get("max_we", 8)]:
+    byw, gids = pick_webentities(sut, rng, case, 8)
+    for gid in gids:
         ps = list(byw[gid])
         rng.shuffle(ps)
         w = sut.idmap[gid]
@@ -325,7 +371,7 @@ def codec_law(rng, stats, maxlen, n_random):
                 return out
     for _ in range(n_random):
         digits = [rng.choice((1, 2, 3)) for _ in range(rng.choice([1, 5, 31, 32, 33, 100, 400]))]
-        if not one(rng.choice([0, 1, 7, 63, 64, 10 ** 6]), digits):
+        if not one(rng.choice([0, 1, 7, 9, 10, 11, 63, 64, 99, 100, 255, 256, 4095, 4096, 10 ** 6]), digits):
             return out
     return out
 
@@ -497,6 +543,7 @@ def run_shard(prop, spec, tier, seed, shard, nshards, scratch):
             case = build_case(rng, spec, tier)
             case["id"] = "%s/%s/%s/%s" % (seed, prop, tier, a)
             idx = a
+            stats["cases_of_kind:%s" % case.get("kind")] += 1
         ds, feats, digest = run_case(prop, case, spec, scratch, stats)
         res["cases"] += 1
         if feats and nontriv(feats):
